@@ -80,6 +80,9 @@ def handle : List String → Option String
   | ["tav", x] => do
       let x ← parseHexInt? x
       pure (toHex (twoAdicValuationOfIbz x))
+  | ["twoadic", x] => do
+      let x ← parseHexInt? x
+      pure (toHex (ibzTwoAdic x))
   | ["bitsize", x] => do
       let x ← parseHexInt? x
       pure (toHex (sizeInBase2 x))
